@@ -450,7 +450,7 @@ fn visible_point(fp: Fp) {
     true
   });
   if on {
-    sched_point();
+    sched_point_ex(true);
   }
 }
 
@@ -525,12 +525,23 @@ enum Act {
 }
 
 fn do_act(a: Act) {
+  do_act_ex(a, false)
+}
+
+/// `quiet`: the caller holds a live handle of the subject (registration / release of a handle by the harness): an
+/// aborted execution must not unwind from here (the handle's destructor would run the arena's release code with the
+/// hooks switched off); the thread goes on to its next atomic access and is aborted there
+fn do_act_ex(a: Act, quiet: bool) {
   match a {
     Act::Go => {}
-    Act::Abort => std::panic::panic_any(Abort),
+    Act::Abort => {
+      if !quiet {
+        std::panic::panic_any(Abort)
+      }
+    }
     Act::Switch => {
       generator::yield_with(());
-      if ENG.with(|e| e.borrow().aborting) {
+      if !quiet && ENG.with(|e| e.borrow().aborting) {
         std::panic::panic_any(Abort)
       }
     }
@@ -563,6 +574,10 @@ fn state_hash(e: &Eng) -> u64 {
 }
 
 fn sched_point() {
+  sched_point_ex(false)
+}
+
+fn sched_point_ex(quiet: bool) {
   let act = ENG.with(|e| {
     let mut e = e.borrow_mut();
     if e.observer {
@@ -622,7 +637,7 @@ fn sched_point() {
       }
     }
   });
-  do_act(act);
+  do_act_ex(act, quiet);
 }
 
 /// record a hang: every unfinished thread waits for a write nobody will make
@@ -1932,7 +1947,11 @@ pub fn explore(run: &Run, h: &Harness, xc: &ExploreCfg, tag: &str) -> ExploreSta
       run.nontrivial.insert(hash_of(&(h, out.outcome, out.viol.len())));
     }
     let sched: Vec<u8> = out.choices.iter().map(|c| c.chosen).collect();
-    if let (true, Some(prop)) = (out.cap_hit, (xc.prop_of)("hang")) {
+    if out.cap_hit && xc.por {
+      // without the fairness slice an execution may be long because the schedule is unfair: a cap, not a verdict
+      st.capped = true;
+    }
+    if let (true, false, Some(prop)) = (out.cap_hit, xc.por, (xc.prop_of)("hang")) {
       run.violation(Violation {
         property: prop.into(),
         signature: format!("{}:hang:event-cap", tag),
